@@ -173,7 +173,7 @@ package lexer
 // The property's sentence for string literals too. It does NOT hold: the scanner substitutes the two
 // characters backslash-n by a line feed in the token text (pinned by lexer_test.go) - an open, listed finding.
 //@   ensures[text_is_span_strlit;C14] result && l.Err == nil && l.Token.Type == token.StringLit ==> l.Token.Value == l.input[l.Token.From():l.Token.To()]
-//@   ensures[span;C14]     result && l.Err == nil && !synthetic(l.Token) ==> old(l.from) <= l.Token.From() && l.Token.From() <= l.Token.To() && l.Token.To() == l.from && l.from <= len(l.input)
+//@   ensures[span;C14,C06]     result && l.Err == nil && !synthetic(l.Token) ==> old(l.from) <= l.Token.From() && l.Token.From() <= l.Token.To() && l.Token.To() == l.from && l.from <= len(l.input)
 //@   ensures[nonempty;C14] old(lclean(l)) && result && l.Err == nil && !synthetic(l.Token) ==> l.Token.From() < l.Token.To()
 //@   ensures[kind_by_first;C14] old(lclean(l)) && result && l.Err == nil && !synthetic(l.Token) ==> kindMatchesFirst(l.Token.Type, strat(l.input, l.Token.From()))
 //@   ensures[maximal_run;C14] old(lclean(l)) && result && l.Err == nil && !synthetic(l.Token) && l.Token.To() < len(l.input) ==> !extendsKind(l.Token.Type, strat(l.input, l.Token.To()))
